@@ -42,6 +42,16 @@ MUTATIONS = [
     ("dask_expr/_shuffle.py", "                (split_name, part_out, part_in)\n                for part_in in range(self.frame.npartitions)", "                (split_name, part_out, part_in)\n                for part_in in range(1, self.frame.npartitions)", "vf.contracts.layers:SimpleShuffleLayer", "post:outputs-concat-piece-of-every-input"),
     ("dask_expr/_shuffle.py", "                    (shuffle_group_name, _part_in),\n                    _part_out,\n                )\n                if (shuffle_group_name, _part_in) not in dsk:", "                    (shuffle_group_name, _part_in),\n                    global_part,\n                )\n                if (shuffle_group_name, _part_in) not in dsk:", "vf.contracts.layers:SimpleShuffleLayer", "post:K3-pieces-and-groups"),
     ("dask_expr/_shuffle.py", "                        (self.frame._name, _part_in),\n                        _filter,", "                        (self.frame._name, _part_out),\n                        _filter,", "vf.contracts.layers:SimpleShuffleLayer", "fn:guarded-insert"),
+    ("dask_expr/_merge.py", "                if self.broadcast_side in (\"left\", \"leftsemi\"):\n                    _merge_args.reverse()", "                if self.broadcast_side in (\"right\", \"leftsemi\"):\n                    _merge_args.reverse()", "vf.contracts.layers:BroadcastJoinLayer_inner_left", "post:K3-merge-argument-order"),
+    ("dask_expr/_merge.py", "            for j in range(bcast_size):\n                # Specify arg list", "            for j in range(1, bcast_size):\n                # Specify arg list", "vf.contracts.layers:BroadcastJoinLayer_left_right", "inv-"),
+    ("dask_expr/_merge.py", "                    (other, part_out),\n                    other_on,\n                    bcast_size,", "                    (other, i),\n                    other_on,\n                    bcast_size,", "vf.contracts.layers:BroadcastJoinLayer_left_right", "post:K3-merge-argument-order-and-splits"),
+    ("dask_expr/_merge.py", "        for i, part_out in enumerate(self._partitions):\n            if self.how != \"inner\":", "        for i, chosen in enumerate(self._partitions):\n            part_out = chosen\n            if self.how != \"inner\":", "vf.contracts.layers:BroadcastJoinLayer_left_right", None),
+    ("dask_expr/_merge.py", "            and self.how != broadcast_side\n", "", "vf.contracts.decisions:IsBroadcastJoin", "post:broadcast-only-when-legal"),
+    ("dask_expr/_merge.py", "            and not (self.how == \"leftsemi\" and broadcast_side == \"left\")\n", "", "vf.contracts.decisions:IsBroadcastJoin", "post:broadcast-only-when-legal"),
+    ("dask_expr/_merge.py", "            and self.how in (\"inner\", \"left\", \"right\", \"leftsemi\")\n            and self.how != broadcast_side", "            and self.how in (\"inner\", \"left\", \"right\", \"leftsemi\", \"outer\")\n            and self.how != broadcast_side", "vf.contracts.decisions:IsBroadcastJoin", "post:broadcast-only-when-legal"),
+    ("dask_expr/_merge.py", "            if broadcast or (n_low < math.log2(n_high) * broadcast_bias):", "            if n_low < math.log2(n_high) * broadcast_bias:", "vf.contracts.decisions:IsBroadcastJoin", "post:forced-broadcast"),
+    ("dask_expr/_expr.py", "        return dep.npartitions == 1 and dep.ndim < self.ndim", "        return dep.npartitions == 1 and dep.ndim <= self.ndim", "vf.contracts.layers:BroadcastDep", "post:broadcast-iff"),
+    ("dask_expr/_expr.py", "            if self._broadcast_dep(arg):\n                return (arg._name, 0)\n            else:\n                return (arg._name, i)\n\n        else:\n            return arg", "            if self._broadcast_dep(arg):\n                return (arg._name, i)\n            else:\n                return (arg._name, i)\n\n        else:\n            return arg", "vf.contracts.layers:BlockwiseArg", "post:"),
     # harmless edits: renamed local, reordered independent statements, extra statement
     ("dask_expr/_expr.py", "        new_divisions = []\n        for part in self._partitions:\n            new_divisions.append(full_divisions[part])\n        new_divisions.append(full_divisions[part + 1])\n        return tuple(new_divisions)", "        picked = []\n        for part in self._partitions:\n            picked.append(full_divisions[part])\n        picked.append(full_divisions[part + 1])\n        return tuple(picked)", "vf.contracts.partitions:PFDivisions", None),
     ("dask_expr/_repartition.py", "        npartitions = self.new_partitions\n        npartitions_input = self.frame.npartitions\n", "        npartitions_input = self.frame.npartitions\n        npartitions = self.new_partitions\n", "vf.contracts.repartition:FewerBoundaries", None),
